@@ -16,19 +16,47 @@ static size_t a_malloc_calls, a_realloc_calls;
 #ifndef A_BIG
 #define A_BIG 4096
 #endif
+#ifdef TAGGING_ALLOC
+/* C13: every block carries a hidden 16-byte header (magic + live flag) in front of the pointer handed to the library.
+ * A block that did not come from this allocator fails the magic check when released or resized; a tagged block handed to
+ * the C library's free/realloc is an interior pointer (CBMC: "free argument has offset zero" fails; natively: ASan/glibc abort). */
+#define A_MAGIC 0xC0FFEE5A5A11D00DULL
+struct a_hdr { uint64_t magic; uint64_t live; };
+static void* a_tag(void* raw) { struct a_hdr* h = (struct a_hdr*)raw; h->magic = A_MAGIC; h->live = 1; return (unsigned char*)raw + sizeof(struct a_hdr); }
+static struct a_hdr* a_untag(void* p) {
+  struct a_hdr* h = (struct a_hdr*)((unsigned char*)p - sizeof(struct a_hdr));
+  VF_ASSERT(h->magic == A_MAGIC, "block released/resized was obtained from the installed allocator");
+  VF_ASSERT(h->live == 1, "block released/resized is still live (handed to the installed free exactly once)");
+  return h;
+}
+#endif
 static bool a_should_fail(void) { size_t i = a_reqs++; return a_inject && (a_failstop ? i >= a_failk : i == a_failk); }
 static void* a_malloc(size_t n) {
   a_malloc_calls++; a_last_size = n;
   if (a_should_fail()) return NULL;
   if (a_record && n > A_BIG) return NULL;
+#ifdef TAGGING_ALLOC
+  void* raw = malloc(n + sizeof(struct a_hdr) + (n == 0)); __CPROVER_assume(raw != NULL); a_live++; return a_tag(raw); /* +1 for n == 0: the user pointer must lie inside the object */
+#else
   void* p = malloc(n); __CPROVER_assume(p != NULL); a_live++; return p;
+#endif
 }
 static void* a_realloc(void* q, size_t n) {
   a_realloc_calls++; a_last_realloc_size = n;
   if (a_should_fail()) return NULL;
   if (a_record && n > A_BIG) return NULL;
+#ifdef TAGGING_ALLOC
+  void* rawq = NULL;
+  if (q) { struct a_hdr* h = a_untag(q); rawq = h; }
+  void* raw = realloc(rawq, n + sizeof(struct a_hdr) + (n == 0)); __CPROVER_assume(raw != NULL); if (!q) a_live++; return a_tag(raw);
+#else
   void* p = realloc(q, n); __CPROVER_assume(p != NULL); if (!q) a_live++; return p;
+#endif
 }
+#ifdef TAGGING_ALLOC
+static void a_free(void* p) { if (!p) return; struct a_hdr* h = a_untag(p); h->live = 0; h->magic = 0; a_live--; a_frees++; free(h); }
+#else
 static void a_free(void* p) { if (p) { a_live--; a_frees++; } free(p); }
+#endif
 static void a_install(void) { cbor_set_allocs(a_malloc, a_realloc, a_free); }
 #endif
